@@ -23,7 +23,7 @@ TIES = {"src", "cmd"}
 
 def _c(**kw):
     base = dict(NApps=1, NSubs=2, MaxSteps=3, TEnd=4, MaxGap=1, SKs=ALLSK, Bs={1, 99}, Ws={99}, Wrs={"none"}, Ns={0},
-                Mps={"none"}, SrcIds={1, 3}, GenLen=0, Hots=BOTH, Ties=TIES, ReUnsub=False, StaleDisc=False, MinLen=0)
+                Mps={"none"}, SrcIds={1, 3}, GenLen=0, Hots=BOTH, Ties=TIES, ReUnsub=False, StaleDisc=False, Modes={"all"}, MinLen=0)
     base.update(kw)
     return base
 
@@ -32,19 +32,24 @@ def plan(tier: str, seed: int):
     """[(label, constants, simulate-or-None, depth)]"""
     deep = dict(NSubs=3, MaxSteps=6 if tier == "quick" else 8, TEnd=5, MaxGap=2, Wrs={"none", "ref_count", "auto"},
                 Ns={0, 1, 2, 3}, Mps={"none", "id", "dup", "take1"}, SrcIds=set(range(1, 11)), ReUnsub=True, StaleDisc=True,
-                MinLen=4)
+                Modes={"all", "once"}, MinLen=4)
     d = deep["MaxSteps"] + 2
     if tier == "quick":
-        return [("raw connectables, 3 steps", _c(SrcIds={1}), None, None),
-                ("ref_count/auto_connect, 3 steps", _c(Wrs={"ref_count", "auto"}, Ns={0, 1, 2}, SrcIds={3}), None, None),
+        # several small JVMs: on the shared, oversubscribed box one process only gets one thread's share of a core
+        return [("raw publish / publish_value, 3 steps", _c(SKs={"plain", "behavior"}, SrcIds={1}), None, None),
+                ("raw replay(1) / replay(), 3 steps", _c(SKs={"replay"}, SrcIds={1}), None, None),
+                ("ref_count, 3 steps", _c(Wrs={"ref_count"}, SrcIds={1, 3}), None, None),
+                ("auto_connect(0..2), 3 steps", _c(Wrs={"auto"}, Ns={0, 1, 2}, SrcIds={3}), None, None),
                 ("mapper forms, 3 steps", _c(Mps={"id", "dup", "take1"}, SrcIds={1}), None, None),
                 ("simulate all variants", _c(Bs={0, 1, 2, 99}, Ws={1, 2, 99}, **deep), "num=500", d)]
-    nsim = 6000
+    nsim = 4000
     gen = dict(deep, SrcIds=set(), GenLen=3, TEnd=4)
-    return [("raw connectables, 4 steps", _c(MaxSteps=4, NSubs=2, SrcIds={1, 3, 5}, StaleDisc=True), None, None),
+    return [("raw connectables, 4 steps", _c(MaxSteps=4, NSubs=2, SrcIds={1, 3}, StaleDisc=True), None, None),
             ("ref_count/auto_connect, 5 steps", _c(Wrs={"ref_count", "auto"}, Ns={0, 1, 2, 3}, MaxSteps=5, NSubs=3, SrcIds={1, 3}),
              None, None),
-            ("mapper forms, 4 steps", _c(Mps={"id", "dup", "take1"}, MaxSteps=4, MaxGap=2, NSubs=3, SrcIds={1, 3, 5}), None, None),
+            ("self-unsubscribing subscribers, 4 steps", _c(Wrs={"none", "ref_count", "auto"}, Ns={1, 2}, MaxSteps=4, SrcIds={4, 1},
+                                                          Modes={"all", "once"}), None, None),
+            ("mapper forms, 4 steps", _c(Mps={"id", "dup", "take1"}, MaxSteps=4, NSubs=3, SrcIds={1, 3, 5}), None, None),
             ("replay windows, 4 steps", _c(SKs={"replay"}, Bs={0, 2, 99}, Ws={1, 2}, Wrs={"none", "ref_count"}, MaxSteps=4,
                                            SrcIds={1, 7}, Ties={"src"}), None, None),
             ("simulate plain/behavior", _c(SKs={"plain", "behavior"}, **deep), f"num={nsim}", d),
@@ -55,7 +60,7 @@ def plan(tier: str, seed: int):
 def variants(scn, idx: int, every_form: bool):
     """Constructions of the variant (all of them, or two in rotation in the quick tier) with plain values
     and stride 10, plus one rotating extra: falsy values / stride 3 / HistoricalScheduler (datetime clock) / subscribe(scheduler=...)."""
-    forms = cc.forms_for(scn["kind"], scn["tie"], 1)
+    forms = cc.forms_for(scn["kind"], scn["tie"], 1, cc.has_once(scn))
     use = forms if every_form or len(forms) <= 2 else [forms[idx % len(forms)], forms[(idx + 1) % len(forms)]]
     vs = [dict(form=f, profile="plain", salt=idx % 2, stride=10) for f in use]
     extra = idx % 4
@@ -91,7 +96,8 @@ def run(tier: str) -> int:
     ck = core.Check("C24", tier)
     ck.rule = ("histories of subscribe/unsubscribe/connect/disconnect at model-chosen instants (commands may share an instant "
                "with each other and with source events, both orders) over cold and hot logged sources, for publish / "
-               "publish_value / replay(buffer, window) connectables, ref_count / share, auto_connect(0..3) and the mapper "
+               "publish_value / replay(buffer, window) connectables, ref_count / share, auto_connect(0..3), subscribers that "
+               "unsubscribe themselves from inside their first delivery (take(1)), and the mapper "
                "forms of publish / publish_value / replay / multicast(subject_factory); enumerated lazily by TLC on "
                "Connectable.tla, each performed on every construction the library offers for the variant; non-trivial = "
                "at least one source subscription and one non-empty subscriber stream")
@@ -104,7 +110,7 @@ def run(tier: str) -> int:
                        seed=(ck.seed + 11) if sim else None, xmx="2g", env_extra=JVM, allow_violation=False)
     lines = []
     t0 = time.time()
-    with ThreadPoolExecutor(4) as ex:
+    with ThreadPoolExecutor(6 if tier == "quick" else 4) as ex:
         for j, res in zip(jobs, ex.map(one, jobs)):
             ck.add_tlc(res, j[0] + (" [simulation]" if j[2] else " [exhaustive]"))
             lines += res.lines
